@@ -392,6 +392,18 @@ class OnnxFunction(Op, Generic[_P, _R]):
 
         # Duplicate the graph to create the model
         main_graph = self.function_ir.graph.clone()
+        # The main graph of a model cannot refer to attribute parameters: bind the
+        # references to the parameters' default values (to_model_proto rejects
+        # functions that have attribute parameters without a default).
+        default_attrs = {attr.name: attr for attr in self.function_ir.attrs}
+        if default_attrs:
+            for node in ir.traversal.RecursiveGraphIterator(main_graph):
+                for attr in list(node.attributes.values()):
+                    default = default_attrs.get(attr.ref_attr_name) if attr.is_ref() else None
+                    if default is not None and default.value is not None:
+                        node.attributes[attr.name] = ir.Attr(
+                            attr.name, attr.type, default.value
+                        )
         # Determine opset imports
         opset_imports = main_graph.opset_imports.copy()
 
